@@ -217,6 +217,8 @@ class RFrame:
                     raise Unsupported("DataFrame.reindex other than by an index of the same universe", node)
                 # assumed pandas contract (unique labels): the result has the labels of `index`; a label this frame lacks gets NaN cells
                 tgt = index.frame
+                # pandas raises "cannot reindex on an axis with duplicate labels": the source must have unique labels
+                interp.run.check(f"safety.reindex_unique[{interp.where(None)}]", to_z3(self.mult) <= 1, kind="safety", loc=f"line {getattr(node, 'lineno', '?')}")
                 here = self.member()
                 cells = OrderedDict((c, cell_ite(here, v, NAN_CELL)) for c, v in self.cells.items())
                 return self.derive(mult=tgt.mult, cells=cells, note=f"reindex(frame#{tgt.uid})")
@@ -423,6 +425,22 @@ class _OpaqueStamp(SOpaque):
     def sym_binop(self, interp, op, l, r, node):
         return _OpaqueStamp("timestamp arithmetic")
 
+    def sym_getattr(self, interp, name, node):
+        if name in ("replace", "normalize", "tz_convert", "tz_localize", "floor", "ceil"):
+            return _Callable(lambda *a, **k: _OpaqueStamp(f"{self.label}.{name}(...)"))
+        if name == "hour":
+            return interp.run.fresh_int("hour_of_stamp")
+        raise Unsupported(f"Timestamp.{name} of an unknown timestamp", node)
+
+
+class _IndexDtype:
+    unit = "ns"
+
+    def sym_getattr(self, interp, name, node):
+        if name == "unit":
+            return "ns"        # assumed: nanosecond resolution (the conversion branch is a no-op on values)
+        raise Unsupported(f"index dtype.{name}", node)
+
 
 class Offset:
     """a pandas frequency (DateOffset) of a regular index: compares with its alias, has a length in nanoseconds"""
@@ -523,6 +541,13 @@ class RIndex:
             return getattr(self.frame, "inferred_freq", SOpaque("inferred_freq"))
         if name in ("max", "min"):
             return _Callable(lambda *a, **k: _OpaqueStamp(f"index.{name}()"))
+        if name == "dtype":
+            return _IndexDtype()
+        if name == "date":
+            # the calendar date of the label: an unknown (real-coded) quantity of the arbitrary row
+            if "date" not in u:
+                u["date"] = interp.run.input("row.date", z3.RealSort())
+            return RSeries(self.frame, Cell(NUM, u["date"]), "index.date")
         if name == "union":
             # labels added to the index (a buffer label after the last one): the arbitrary row's cells are unaffected
             return _Callable(lambda other, *a, **k: RIndex(self.frame))
@@ -693,6 +718,8 @@ class RSeries:
             return _Callable(fill)
         if name == "copy":
             return _Callable(lambda *a, **k: RSeries(self.frame, Cell(c.kind, c.val), self.name))
+        if name in ("min", "max"):
+            return _Callable(lambda *a, **k: z3.Real(f"{name}!{self.frame.label}!{self.name}"))
         if name == "median":
             # a global quantity of the column: an unknown real (named after the frame and column so that contracts can refer to it)
             return _Callable(lambda *a, **k: z3.Real(f"median!{self.frame.label}!{self.name}"))
@@ -1119,6 +1146,27 @@ def pd_dataframe(interp, args, kwargs, node, frame):
     return NotImplemented
 
 
+def pd_date_range(interp, args, kwargs, node, frame):
+    """pd.date_range(start=<first label's day 00:00>, end=<last label's day 23:00>, freq='h') on the row-wise model: a regular hourly grid with
+    unique labels.  Whether the arbitrary label lies on it is an unknown `on_grid`; the ASSUMED precondition of the property (on-the-hour hourly
+    input) makes every supplied label a grid point, which the harness states with grid_contains()."""
+    start, end = kwargs.get("start", args[0] if args else None), kwargs.get("end", args[1] if len(args) > 1 else None)
+    if isinstance(start, _OpaqueStamp) and isinstance(end, _OpaqueStamp) and kwargs.get("freq") in ("h", "H", "1h"):
+        use(interp, "pd.date_range")
+        run = interp.run
+        on = run.input("row.on_grid", z3.BoolSort())
+        month = run.input("row.month", z3.IntSort())
+        dow = run.input("row.dayofweek", z3.IntSort())
+        hour = run.input("row.hour", z3.IntSort())
+        f = RFrame(z3.If(on, 1, 0), OrderedDict(), {"month": month, "dow": dow, "hour": hour}, True, "local", label="grid")
+        f.is_grid = True
+        return RIndex(f)
+    return NotImplemented
+
+
+assumed("pd.date_range", "pd.date_range(start, end, freq='h') is the gap-free hourly grid from start to end with unique labels")
+
+
 def np_isfinite(interp, args, kwargs, node, frame):
     v = args[0]
     if isinstance(v, RSeries):
@@ -1127,7 +1175,7 @@ def np_isfinite(interp, args, kwargs, node, frame):
 
 
 def install():
-    for name, f in (("pandas.concat", pd_concat), ("pandas.DataFrame", pd_dataframe), ("pandas.Series", pd_series), ("numpy.isfinite", np_isfinite),
+    for name, f in (("pandas.concat", pd_concat), ("pandas.DataFrame", pd_dataframe), ("pandas.Series", pd_series), ("numpy.isfinite", np_isfinite), ("pandas.date_range", pd_date_range),
                     ("numpy.sqrt", np_unary("sqrt")), ("numpy.square", np_unary("square")), ("numpy.abs", np_unary("abs"))):
         prev = libmodels.LIB.get(name)
 
@@ -1158,7 +1206,12 @@ def install():
             v = run.input(f"row.{c}", z3.RealSort())
             run._add(z3.And(k >= 0, k <= 3))
             cells[c] = Cell(k, v)
-        return RFrame(z3.IntVal(1), cells, {"month": month, "dow": dow, "hour": hour}, False, "local", label=kwargs.get("label", "input"))
+        mult = z3.IntVal(1)
+        if kwargs.get("multiplicity") == "any":
+            # the arbitrary label may be absent (0), present once, or duplicated (the cells are those of its FIRST occurrence)
+            mult = run.input("row.multiplicity", z3.IntSort())
+            run._add(mult >= 0)
+        return RFrame(mult, cells, {"month": month, "dow": dow, "hour": hour}, False, "local", label=kwargs.get("label", "input"))
 
     @libmodels.api("row_twin")
     def _row_twin(interp, args, kwargs, node, frame):
@@ -1260,6 +1313,10 @@ def install():
     def _row_series(interp, args, kwargs, node, frame):
         f = _row_frame(interp, [[args[0]]], {"label": kwargs.get("label", "series")}, node, frame)
         return RSeries(f, f.cells[args[0]], args[0])
+
+    @libmodels.api("on_grid")
+    def _on_grid(interp, args, kwargs, node, frame):
+        return interp.run.input("row.on_grid", z3.BoolSort())
 
     @libmodels.api("median_of")
     def _median_of(interp, args, kwargs, node, frame):
